@@ -9,7 +9,7 @@
    TopoFinish / TopoDup. *)
 From stdpp Require Import gmap strings.
 Require Import Grits.Base Grits.ModeDefs Grits.Modes Grits.STypes Grits.Forms Grits.Subst Grits.TcDeps Grits.Expand
-               Grits.Runtime Grits.RuntimeFootprint Grits.spec.RtTyping Grits.spec.Topo.
+               Grits.Runtime Grits.RuntimeFootprint Grits.spec.RtTyping Grits.spec.Topo Grits.spec.Linear.
 Require Import Grits.proofs.RtSubst Grits.proofs.StepErrors Grits.proofs.RtSafety Grits.proofs.TopoLin
                Grits.proofs.RuntimeFacts Grits.proofs.TopoStep Grits.proofs.TopoStepExt Grits.proofs.TopoFinish
                Grits.proofs.DupSubst Grits.proofs.LinChan Grits.proofs.TopoDup.
@@ -108,7 +108,7 @@ Qed.
 
 Definition DropUnref (c : config) : Prop :=
   forall p pp, procs c !! p = Some pp -> is_dfwd (pr_body0 pp) = true ->
-  forall j o, j ∈ cids_of (pr_provs pp) -> obj_in c o -> j ∉ refs o.
+  length (pr_provs pp) = 1%nat /\ forall j o, j ∈ cids_of (pr_provs pp) -> obj_in c o -> j ∉ refs o.
 Definition NoFd (c : config) : Prop := forall p pp, procs c !! p = Some pp -> nofd_top (pr_body0 pp) = true.
 Definition ProvsOk (c : config) : Prop :=
   (forall p pp, procs c !! p = Some pp -> NoDup (cids_of (pr_provs pp))) /\
@@ -126,15 +126,16 @@ Hypothesis HFn : nofd_funs F.
 Lemma dropunref_step Δ c c' :
   cfg_typed D F teq Δ c -> DropUnref c -> RM Δ c c' ->
   (forall q v, procs c' !! q = Some v -> is_dfwd (pr_body0 v) = true ->
-     procs c !! q = Some v \/ forall j o', j ∈ cids_of (pr_provs v) -> obj_in c' o' -> j ∉ refs o') ->
+     procs c !! q = Some v \/ (length (pr_provs v) = 1%nat /\ forall j o', j ∈ cids_of (pr_provs v) -> obj_in c' o' -> j ∉ refs o')) ->
   DropUnref c'.
 Proof.
-  intros Hc Hd Hrm Hnew q v Hq Hdf j o' Hj Ho' Hjr. destruct (Hnew q v Hq Hdf) as [Hold|Hfresh]; [|exact (Hfresh j o' Hj Ho' Hjr)].
+  intros Hc Hd Hrm Hnew q v Hq Hdf. destruct (Hnew q v Hq Hdf) as [Hold|Hfresh]; [|exact Hfresh].
+  split; [by destruct (Hd q v Hold Hdf)|]. intros j o' Hj Ho' Hjr.
   destruct (ct_procs D F teq Δ c Hc q v Hold) as (s & rs & _ & Hprovs & _). rewrite Forall_forall in Hprovs.
   assert (HΔ : is_Some (Δ !! j)).
   { unfold cids_of in Hj. apply elem_In, in_flat_map in Hj as (n & Hn & Hjn). destruct (Hprovs n Hn) as (c0 & t' & Hc0 & Ht' & _).
     rewrite Hc0 in Hjn. destruct Hjn as [<-|[]]. eauto. }
-  destruct (Hrm o' j Ho' Hjr HΔ) as (o & Ho & Hjo). exact (Hd q v Hold Hdf j o Hj Ho Hjo).
+  destruct (Hrm o' j Ho' Hjr HΔ) as (o & Ho & Hjo). destruct (Hd q v Hold Hdf) as [_ H]. exact (H j o Hj Ho Hjo).
 Qed.
 
 (* everything but Topo, for a step that applies an effect: the continuation and the spawned processes
@@ -156,7 +157,7 @@ Lemma rest_of_effect Δ c c0 p pp e (R : cid -> Prop) :
      affr None (sp_body s) /\ NoDup (cids_of (sp_provs s)) /\
      (forall j, j ∈ form_chans (sp_body s) -> R j \/ Δ !! j = None) /\
      (nofd (sp_body s) = true \/
-      (is_dfwd (sp_body s) = true /\ (forall j, j ∈ cids_of (sp_provs s) -> Δ !! j = None) /\ old_only Δ e))) ->
+      (is_dfwd (sp_body s) = true /\ length (sp_provs s) = 1%nat /\ (forall j, j ∈ cids_of (sp_provs s) -> Δ !! j = None) /\ old_only Δ e))) ->
   let c' := apply_effect c0 p pp e in
   LinCfg c' /\ ProvsOk c' /\ DropUnref c' /\ NoFd c'.
 Proof.
@@ -184,8 +185,8 @@ Proof.
   - apply (dropunref_step Δ c c' Hc Hd Hrm). intros q v Hq Hdf.
     pose proof (apply_effect_objs c0 p pp e (OProc q v) Hq) as [(-> & pp1 & Ea & _ & Hb)|[(s & n & Hs & -> & ->)|[_ Ho]]].
     + exfalso. rewrite Hb in Hdf. destruct (Hcont pp1 Ea) as (_ & _ & Hn & _). rewrite (nofd_not_dfwd _ Hn) in Hdf. discriminate.
-    + right. cbn in Hdf. destruct (Hsp s Hs) as (_ & _ & _ & [Hn|(_ & Hfr & Hold1 & Hold2)]); [rewrite (nofd_not_dfwd _ Hn) in Hdf; discriminate|].
-      intros j o' Hj Ho' Hjr. cbn in Hj. specialize (Hfr j Hj).
+    + right. cbn in Hdf. destruct (Hsp s Hs) as (_ & _ & _ & [Hn|(_ & Hlen & Hfr & Hold1 & Hold2)]); [rewrite (nofd_not_dfwd _ Hn) in Hdf; discriminate|].
+      split; [exact Hlen|]. intros j o' Hj Ho' Hjr. cbn in Hj. specialize (Hfr j Hj).
       apply apply_effect_objs in Ho'. destruct o' as [q' v'|k' m'].
       * destruct Ho' as [(-> & pp1 & Ea & _ & Hb)|[(s' & n' & Hs' & -> & ->)|[_ Ho]]].
         -- cbn in Hjr. rewrite Hb in Hjr. destruct (Hold1 pp1 Ea j Hjr) as [? E]. congruence.
@@ -197,6 +198,155 @@ Proof.
     + rewrite Hb. destruct (Hcont pp1 Ea) as (_ & _ & Hn & _). unfold nofd_top. by rewrite Hn, orb_true_r.
     + cbn. destruct (Hsp s Hs) as (_ & _ & _ & [Hn|(Hdf & _)]); unfold nofd_top; [by rewrite Hn, orb_true_r|by rewrite Hdf].
     + exact (Hnf q v (Hsubp q v Ho)).
+Qed.
+
+Lemma affr_fwd_leaf a b d : chan a = None -> is_self a = true -> affr None (FFwd a b d).
+Proof.
+  intros Hc Hs. split; [|exact I]. simpl. constructor; [|constructor].
+  unfold uname at 1. rewrite Hc. unfold prov_ref. rewrite Hs. simpl.
+  unfold uname. destruct (chan b); [repeat constructor; simpl; tauto|]. destruct (prov_ref None b); repeat constructor; simpl; tauto.
+Qed.
+
+Definition Rest (c' : config) : Prop := Topo c' /\ LinCfg c' /\ ProvsOk c' /\ DropUnref c' /\ NoFd c'.
+
+Lemma step_internal c p pp e : procs c !! p = Some pp -> action_of Async D pp = AInternal ->
+  internal_effect Async F p pp = EOk e -> step Async D F c (Run p) = SStep (apply_effect c p pp e).
+Proof. intros Hp Ea He. cbn [step]. rewrite Hp, Ea, He. reflexivity. Qed.
+
+Lemma invx_internal Δ c p pp e :
+  cfg_typed D F teq Δ c -> Topo c -> LinCfg c -> ns_ok c -> ProvsOk c -> DropUnref c -> NoFd c ->
+  procs c !! p = Some pp -> action_of Async D pp = AInternal -> internal_effect Async F p pp = EOk e ->
+  Rest (apply_effect c p pp e).
+Proof.
+  intros Hc Ht Hl Hns Hpv Hd Hnf Hp Ea He.
+  pose proof (step_internal c p pp e Hp Ea He) as Hstep.
+  destruct (ct_procs D F teq Δ c Hc p pp Hp) as (s & rs & Hne & Hprovs & Hty).
+  assert (Hm : multi pp = false).
+  { destruct (multi pp) eqn:E; [|done]. exfalso. pose proof (action_internal_form _ _ _ Ea) as Hf. unfold action_of in Ea.
+    destruct (pr_body0 pp); try done; simpl in Ea;
+      repeat match type of Ea with (if ?b then _ else _) = _ => destruct b end; unfold internal in Ea; rewrite ?E in Ea; discriminate. }
+  destruct (single_provs pp Hne Hm) as [n0 Hn0].
+  pose proof (lc_procs c Hl p pp Hp) as Hlinp. pose proof (Hnf p pp Hp) as Hnfp. pose proof (proj1 Hpv p pp Hp) as Hndp.
+  pose proof (action_internal_form _ _ _ Ea) as Hform.
+  destruct pp as [provs body nx]. cbn [pr_body0 pr_provs pr_next] in *. subst provs.
+  assert (Hsame : forall o, obj_in c o -> obj_in c o) by auto.
+  assert (Hsamep : forall q v, procs c !! q = Some v -> procs c !! q = Some v) by auto.
+  assert (HR : forall j, j ∈ form_chans body -> exists o, obj_in c o /\ j ∈ refs o).
+  { intros j Hj. exists (OProc p (Proc [n0] body nx)). split; [exact Hp|exact Hj]. }
+  assert (HkΔ : forall a, (nx <= a)%nat -> Δ !! (p ++ [a]) = None).
+  { intros a Ha. apply (ct_fresh D F teq Δ c Hc p _ a [] Hp). cbn. lia. }
+  unfold internal_effect in He. cbn [pr_body0] in He.
+  destruct body as [| | | |x b k0| | | |x y fr k0|fn args pt| | |cl k0|l k0]; try done.
+  - (* cut *)
+    unfold fresh_chan in He. cbn [pr_next pr_provs pr_body0 cids_of flat_map chan app] in He. injection He as <-.
+    set (kn := p ++ [nx]). set (cn := mkName (ident x) false (pol x) (nty x) (Some kn)).
+    inversion Hty as [| | | | | | | |? ? ? ? x' b' k' A Hbx Hsx Hb Hk0| | | | | | | | | | |]; subst.
+    destruct (fresh_facts D F teq Δ c p n0 _ nx Hc Hns Hp) as [Hfr Hkp].
+    destruct (Hfr nx (le_n _)) as (HkΔn & Hkc & _ & Hfro). destruct (Hfr (S nx + 1)%nat ltac:(lia)) as (_ & _ & Hchild & _).
+    simpl in Hlinp. destruct Hlinp as (Hpaths & Hlb & Hlk).
+    unfold nofd_top in Hnfp. simpl in Hnfp. apply andb_true_iff in Hnfp as [Hnb Hnk].
+    assert (Hkn0 : ~ In kn (form_chans k0)).
+    { intros Hin. apply (proj1 (eq_None_not_Some _) HkΔn). exact (form_chans_typed D F teq Δ _ _ _ _ _ kn Hk0 Hin). }
+    assert (Hpb : forall i, i ∈ form_chans (subst x cn k0) -> i ∈ form_chans (FNew x b k0) \/ i = kn).
+    { intros i Hi. apply elem_In in Hi. apply form_chans_subst in Hi as [Hi|Hi].
+      - left. apply elem_In. simpl. apply in_app_iff. by right.
+      - right. cbn in Hi. by destruct Hi as [<-|[]]. }
+    split.
+    + unfold set_body. cbn [pr_provs pr_body0 pr_next]. rewrite apply_spawn_effect. cbn [length].
+      apply (topo_spawn c p (Proc [n0] (FNew x b k0) nx) [kn] [cn] (p ++ [(S nx + 1)%nat]) b (subst x cn k0)); try done.
+      * intros k1 Hk1. apply elem_of_list_singleton in Hk1 as ->. exact Hkc.
+      * apply child_ne.
+      * intros k1 o Hk1 Ho. apply elem_of_list_singleton in Hk1 as ->. by apply Hfro.
+      * intros i Hi. apply elem_In. simpl. apply in_app_iff. left. by apply elem_In.
+      * intros i Hi. destruct (Hpb i Hi) as [H| ->]; [by left|right; set_solver].
+      * intros i Hib Hip. apply elem_In in Hib. destruct (Hpb i Hip) as [Hi| ->].
+        -- apply elem_In in Hip. apply form_chans_subst in Hip as [Hip|Hip].
+           ++ rewrite Forall_forall in Hpaths.
+              destruct (proj1 chans_path_mut b None i Hib) as (pb1 & Hpb1 & Hk1).
+              destruct (proj1 chans_path_mut k0 None i Hip) as (pk1 & Hpk1 & Hk2).
+              eapply (dup_app pb1 (rmv [x] pk1)); [apply Hpaths, in_crossk; exists pb1, (rmv [x] pk1); split; [done|split; [apply in_map_iff; eauto|done]]|exact Hk1|by apply rmv_chan].
+           ++ cbn in Hip. destruct Hip as [<-|[]]. apply (proj1 (eq_None_not_Some _) HkΔn). exact (form_chans_typed D F teq Δ _ _ _ _ _ kn Hb Hib).
+        -- apply (proj1 (eq_None_not_Some _) HkΔn). exact (form_chans_typed D F teq Δ _ _ _ _ _ kn Hb Hib).
+    + apply (rest_of_effect Δ c c p _ _ (fun j => j ∈ form_chans (FNew x b k0))); auto.
+      * intros pp1 [= <-]. cbn. split.
+        { apply (affr_subst D F teq Hteq Δ ∅ None (rs ∖ {[ident x]}) s k0 x cn kn A (proj1 Hbx) eq_refl);
+            [discriminate|set_solver|exact Hk0|exact Hkn0|exact Hlk]. }
+        split; [exact Hndp|]. split; [by rewrite nofd_subst|].
+        intros j Hj. destruct (Hpb j Hj) as [H| ->]; [by left|right; exact HkΔn].
+      * intros s0 [<-|[]]. cbn [sp_body sp_provs]. split; [exact Hlb|]. split; [cbn; repeat constructor; simpl; tauto|].
+        split; [|by left]. intros j Hj. left. simpl. set_solver.
+  - (* split *)
+    unfold fresh_chan in He. cbn [pr_next pr_provs pr_body0 chan] in He. injection He as <-.
+    set (k1 := p ++ [nx]). set (k2 := p ++ [S nx]).
+    set (c1 := mkName (ident x) false (pol fr) (nty fr) (Some k1)). set (c2 := mkName (ident y) false (pol fr) (nty fr) (Some k2)).
+    inversion Hty as [| | | | | | | | | | | | | | | | | | ? ? ? ? x' y' fr' k' T Hcl Hbx Hby Hxy Hsx Hsy Hk0|]; subst.
+    destruct Hcl as (Hself & _ & Hch). destruct (chan fr) as [kfr|] eqn:Efr; [|destruct Hch as [_ (t' & H0 & _)]; by rewrite lookup_empty in H0].
+    destruct Hch as (t' & HΔfr & _).
+    pose proof (HkΔ nx (le_n _)) as HkΔ1. pose proof (HkΔ (S nx) ltac:(lia)) as HkΔ2. fold k1 in HkΔ1. fold k2 in HkΔ2.
+    simpl in Hlinp. destruct Hlinp as (Hpaths & Hlk). unfold nofd_top in Hnfp. simpl in Hnfp.
+    assert (Hk10 : ~ In k1 (form_chans k0)).
+    { intros Hin. apply (proj1 (eq_None_not_Some _) HkΔ1). exact (form_chans_typed D F teq Δ _ _ _ _ _ k1 Hk0 Hin). }
+    assert (Hk20 : ~ In k2 (form_chans k0)).
+    { intros Hin. apply (proj1 (eq_None_not_Some _) HkΔ2). exact (form_chans_typed D F teq Δ _ _ _ _ _ k2 Hk0 Hin). }
+    assert (Hk12 : k1 <> k2) by (unfold k1, k2; intros E; apply app_inv_head in E; injection E as E; lia).
+    assert (Hpb : forall i, i ∈ form_chans (subst y c2 (subst x c1 k0)) -> i ∈ form_chans k0 \/ i = k1 \/ i = k2).
+    { intros i Hi. apply elem_In in Hi. apply form_chans_subst in Hi as [Hi|Hi].
+      - apply form_chans_subst in Hi as [Hi|Hi]; [left; by apply elem_In|]. right. left. cbn in Hi. by destruct Hi as [<-|[]].
+      - right. right. cbn in Hi. by destruct Hi as [<-|[]]. }
+    split.
+    + eapply (topo_split_step D F teq Hteq Δ c p n0 x y fr k0 nx Async); eauto.
+    + apply (rest_of_effect Δ c c p _ _ (fun j => j ∈ form_chans (FSplit x y fr k0))); auto.
+      * intros pp1 [= <-]. cbn. split.
+        { set (Δ2 := <[k1 := T]> Δ).
+          assert (Hsub2 : Δ ⊆ Δ2) by (by apply insert_subseteq).
+          assert (Hk0' : typed D F teq Δ2 (<[ident x := T]> (<[ident y := T]> ∅)) None (rs ∖ {[ident x]} ∖ {[ident y]}) s k0).
+          { rewrite insert_commute by done. eapply typed_weaken; eauto. }
+          assert (Hf1 : typed D F teq Δ2 (<[ident y := T]> ∅) None (rs ∖ {[ident x]} ∖ {[ident y]}) s (subst x c1 k0)).
+          { eapply (typed_subst D F teq Hteq Δ2 _ None _ s k0 x c1 T); [apply Hbx| |discriminate|set_solver|exact Hk0'].
+            split; [done|]. exists k1, T. split; [done|]. split; [unfold Δ2; apply lookup_insert|apply (teq_refl _ _ Hteq)]. }
+          apply (affr_subst D F teq Hteq Δ2 ∅ None (rs ∖ {[ident x]} ∖ {[ident y]}) s (subst x c1 k0) y c2 k2 T (proj1 Hby) eq_refl);
+            [discriminate|set_solver|exact Hf1| |].
+          - intros Hin. apply form_chans_subst in Hin as [Hin|Hin]; [contradiction|]. cbn in Hin. destruct Hin as [E|[]]. congruence.
+          - apply (affr_subst D F teq Hteq Δ2 (<[ident y := T]> ∅) None (rs ∖ {[ident x]} ∖ {[ident y]}) s k0 x c1 k1 T (proj1 Hbx) eq_refl);
+              [discriminate|set_solver|exact Hk0'|exact Hk10|exact Hlk]. }
+        split; [exact Hndp|]. split; [by rewrite !nofd_subst|].
+        intros j Hj. destruct (Hpb j Hj) as [H|[-> | ->]]; [left; simpl; set_solver|by right|by right].
+      * intros s0 [<-|[]]. cbn [sp_body sp_provs]. split; [by apply affr_fwd_leaf|]. split.
+        { cbn. repeat constructor; simpl; [intros [E|[]]; congruence|tauto]. }
+        split; [|by left]. intros j Hj. left. simpl in Hj |- *. unfold name_chans in Hj at 1. simpl in Hj. set_solver.
+  - (* call *)
+    destruct (call_body F fn args) as [b|] eqn:Ecb; [|done]. injection He as <-.
+    destruct (call_affr D F teq Hteq HF Δ rs s fn args pt b Hty HFa Hlinp Ecb) as [Hab Hcb]. split.
+    + unfold no_eff. rewrite apply_cont_effect. cbn [pr_provs pr_body0 set_body rev map app].
+      apply (topo_cont c p (Proc [n0] (FCall fn args pt) nx)); try done. intros i Hi. apply elem_In. apply Hcb. by apply elem_In.
+    + apply (rest_of_effect Δ c c p _ _ (fun j => j ∈ form_chans (FCall fn args pt))); auto.
+      * intros pp1 [= <-]. cbn. split; [exact Hab|]. split; [exact Hndp|]. split; [eapply nofd_call_body; eauto|].
+        intros j Hj. left. apply elem_In. apply Hcb. by apply elem_In.
+      * intros s0 [].
+  - (* drop *)
+    unfold droppable_fwd, fresh_chan in He. cbn [pr_next pr_provs pr_body0 chan] in He. injection He as <-. split.
+    + eapply (topo_drop_step D F teq Hteq Δ c p n0 cl k0 nx Async); eauto. by apply affr_aff.
+    + inversion Hty as [| | | | | | | | | | | | ? ? ? ? c0 k' T Hcl Hk0| | | | | | |]; subst.
+      destruct Hcl as (Hself & _ & Hch). destruct (chan cl) as [kcl|] eqn:Ecl; [|destruct Hch as [_ (t' & H0 & _)]; by rewrite lookup_empty in H0].
+      destruct Hch as (t' & HΔcl & _).
+      apply (rest_of_effect Δ c c p _ _ (fun j => j ∈ form_chans (FDrop cl k0))); auto.
+      * intros pp1 [= <-]. cbn. split; [simpl in Hlinp; tauto|]. split; [exact Hndp|]. split; [exact Hnfp|].
+        intros j Hj. left. simpl. set_solver.
+      * intros s0 [<-|[]]. cbn [sp_body sp_provs]. split; [by apply affr_fwd_leaf|]. split; [cbn; repeat constructor; simpl; tauto|].
+        assert (Hfw : forall j, j ∈ form_chans (FFwd (mkName (ident cl) true (pol cl) (nty cl) None) cl true) -> j = kcl).
+        { intros j. simpl. unfold name_chans. simpl. rewrite Ecl. set_solver. }
+        split; [intros j Hj; left; apply Hfw in Hj as ->; simpl; unfold name_chans; rewrite Ecl; set_solver|].
+        right. split; [done|]. split; [done|]. split.
+        -- intros j Hj. cbn in Hj. apply elem_of_list_singleton in Hj as ->. apply HkΔ. lia.
+        -- split.
+           ++ intros pp1 [= <-] i Hi. cbn in Hi. apply elem_In in Hi. exact (form_chans_typed D F teq Δ _ _ _ _ _ i Hk0 Hi).
+           ++ intros s1 [<-|[]] i Hi. cbn [sp_body] in Hi. apply Hfw in Hi as ->. eauto.
+  - (* print *)
+    injection He as <-. split.
+    + rewrite apply_cont_effect. cbn [pr_provs pr_body0 set_body]. apply (topo_cont c p (Proc [n0] (FPrint l k0) nx)); done.
+    + apply (rest_of_effect Δ c c p _ _ (fun j => j ∈ form_chans (FPrint l k0))); auto.
+      * intros pp1 [= <-]. cbn. split; [simpl in Hlinp; tauto|]. split; [exact Hndp|]. split; [exact Hnfp|]. intros j Hj. by left.
+      * intros s0 [].
 Qed.
 
 Record InvX (c : config) : Prop := {
